@@ -802,7 +802,7 @@ impl Monitor for M {
             );
         }
         // one index = 32 random lists
-        v.push(Phase::new("random", tier.pick(200_000, 2_000_000)).batch(tier.pick(256, 1024)));
+        v.push(Phase::new("random", tier.pick(200_000, 12_000_000)).batch(tier.pick(256, 1024)));
         v
     }
     fn floors(&self, tier: Tier) -> Vec<(&'static str, u64)> {
